@@ -346,6 +346,10 @@ def execute_wrapper(mod, w, summaries=None, inputs=None, prefix='x', init_tables
 
 
 def read_slot(ex, s, rid, off, ty):
+    size = ex.storesize(ex.resolve(ty))
+    reg = s.regions[rid]
+    if not any(o < off + size and o + c[0] > off for o, c in reg.cells.items()):
+        return None          # the slot was never written on this path
     nub = len(s.ub)
     try:
         v = ex.load(s, Ptr(rid, off), ty)
